@@ -29,12 +29,13 @@ def build(tmpl, n_out, pure_top):
     nodes = []              # every node except the top scheduler
     parent = {}
     counter = [0]
+    shared = set()          # the same (empty) set object is handed to every job constructor as required=
 
     def mk(t, depth):
         counter[0] += 1
         me = counter[0]
         if t == "j":
-            j = GJob("j%d" % me, me % 8)
+            j = GJob("j%d" % me, me % 8, required=shared)
             nodes.append(j)
             return j
         kids = [mk(c, depth + 1) for c in t]
@@ -49,7 +50,7 @@ def build(tmpl, n_out, pure_top):
         parent[k] = top
     outs = []
     for i in range(n_out):
-        o = GJob("o%d" % i, 7 - i)
+        o = GJob("o%d" % i, 7 - i, required=shared)
         nodes.append(o)
         outs.append(o)
     return top, nodes, parent
